@@ -1,2 +1,5 @@
 -- Root of the `Hifi` library: every property file (which pulls in model, specs and lemmas).
 import Hifi.Props.C01
+import Hifi.Props.C02
+import Hifi.Props.C03
+import Hifi.Props.C14
